@@ -113,6 +113,11 @@ def ownership(repo, res):
     # module-level default registry
     d = reg.assign("default_unit_registry")
     res.check(isinstance(d, ast.Call) and norm(d) == "_NonModifiableUnitRegistry()", "default-registry", REG, "the default registry is built with its own table (no lut argument) by the non-modifiable class", found=norm(d), rid=r1)
+    # the unit-string cache holds Unit objects bound to their registry: it is owned like the table
+    from rules import memo_rules
+
+    for key, ok, where, msg, exp, found in memo_rules.unit_cache_writers(repo):
+        res.check(ok, key, where, msg, exp, found, rid=r1)
     dc = reg.func("UnitRegistry.__deepcopy__")
     res.fn(dc)
     lutdef = [norm(n.value) for n in walk_no_nested(dc.node) if isinstance(n, ast.Assign) and norm(n.targets[0]) == "lut"]
@@ -239,6 +244,28 @@ def registry_selection(repo, res):
             res.bad(f"repoint:{rel.split('/')[-1]}:{q}:{text}", where, f"{q} assigns the .registry of an existing Unit object ({text}): a unit shared with other arrays / the exported namespace silently moves to another registry", "build a new Unit in the target registry", text, rid=r4)
     else:
         res.ok("repoint:none", r4)
+    # memoised unit rules: the remembered result is a Unit bound to the registry of the *first* caller.  lru_cache
+    # finds entries by Unit.__hash__/__eq__, which look at table contents and (scale, offset, dimension) but not at
+    # which registry object the unit belongs to: operands from a second registry with equal contents are served the
+    # first registry's unit, and later edits of the first registry then act on the second one's results.
+    from engine import memo
+
+    uo = repo.mod(UO)
+    eqf = uo.func("Unit.__eq__")
+    eq_sees_registry = any(isinstance(n, ast.Attribute) and n.attr == "registry" for n in ast.walk(eqf.node))
+    n_c = 0
+    for f in memo.cached_functions(repo):
+        if f.mod.rel != ARR:
+            continue
+        rets = [n.value for n in walk_no_nested(f.node) if isinstance(n, ast.Return) and n.value is not None]
+        defs, opaque = memo.local_defs(f)
+        carries = any(memo.roots(r, defs, set(f.params), opaque=opaque) & set(f.params) for r in rets)
+        if not carries:
+            continue
+        n_c += 1
+        res.check(eq_sees_registry, f"cached-rule-registry:{f.qualname}", f.where(), f"{f.qualname} is memoised by Unit equality, which ignores the registry a unit belongs to: operands from a second registry with the same contents get a result unit bound to the first registry (a later edit of that registry changes how the second registry's result converts)", "cache key distinguishes registries, or the result is re-created in the operand's registry", "Unit.__eq__ compares scale, offset and dimension only", rid=r4)
+    if n_c < 5:
+        raise AnalysisError("memoised unit rules not found in array.py")
     # unyt_array.__new__: a unit from another registry is re-created, not re-pointed (validated route)
     new = arr.func("unyt_array.__new__")
     res.fn(new)
